@@ -351,6 +351,54 @@ class compute_inp_hashes:
                          invariant=_cih_inv, forall=dict(k=ty.Str))}
 
 
+# ---------------------------------------------------------------- compute_out_hashes
+
+
+def _coh_inv(e):
+    from vc import vcrt
+
+    if not isinstance(e.all_out_hashes, sym.SymMap):
+        return True
+    k0 = e.q.k
+    out, new, all_ = e.out_hashes, e.new_out_hashes, e.all_out_hashes
+    idx = vcrt.index_of(out, k0)
+    in_out, in_all, in_new = out.contains_t(k0), all_.contains_t(k0), new.contains_t(k0)
+    av, ov, nv = all_.value_at(k0), out.value_at(k0), new.value_at(k0)
+    return wrap_bool(tm.And(
+        tm.Iff(in_all, tm.And(in_out, tm.Lt(idx, I(e.i)))),
+        tm.Iff(in_new, tm.And(in_all, _fh_differs(av, ov))),
+        tm.Implies(in_new, B(sym.sym_eq_val(nv, av)))))
+
+
+def _coh_post(out_hashes, result, ghost):
+    """At the arbitrary path k0: it is in all_hashes iff it is an output; it is in new_hashes iff its new hash differs
+    from the recorded one, and new_hashes then holds that new hash (the one all_hashes holds)."""
+    k0 = ghost.k0
+    new, all_ = result.new_hashes, result.all_hashes
+    in_out = out_hashes.contains_t(k0)
+    if not isinstance(all_, sym.SymMap):
+        return wrap_bool(tm.Not(in_out))
+    in_all, in_new = all_.contains_t(k0), new.contains_t(k0)
+    return wrap_bool(tm.And(
+        tm.Iff(in_all, in_out),
+        tm.Iff(in_new, tm.And(in_out, _fh_differs(all_.value_at(k0), out_hashes.value_at(k0)))),
+        tm.Implies(in_new, B(sym.sym_eq_val(new.value_at(k0), all_.value_at(k0))))))
+
+
+@contract("stepup/core/hash.py::compute_out_hashes", props=["C13", "C03"])
+class compute_out_hashes:
+    """Every output is re-hashed; exactly the outputs whose new hash differs from the recorded one end up in
+    new_hashes (with the hash all_hashes holds for them)."""
+
+    args = dict(out_hashes=FileMap, cancel_event=ty.Make(lambda n: trusted.CancelEvent(n)))
+    ghost = dict(k0=ty.Str)
+    may_raise = {common.excmod.HashCancelledError: None, common.excmod.HashFailedError: None, OSError: None}
+    ensures = _coh_post
+    modifies = []
+    loops = {0: LoopSpec(locals=dict(messages=ty.SeqOf(ty.Str), new_out_hashes=FileMap, all_out_hashes=FileMap),
+                         invariant=_coh_inv, forall=dict(k=ty.Str))}
+
+
 # ---------------------------------------------------------------- execute_job / try_skip_job (effect order)
 
 StepHashRec2 = ty.Rec(hashmod.StepHash, dict(inp_digest=ty.Bytes, inp_info=ty.Ignored(), out_digest=ty.Opt(ty.Bytes),
